@@ -14,7 +14,15 @@ type C20Emb struct {
 	Inner struct{ K string }
 	Other struct{ N int8 } // a second nested struct, of another type
 	Tags  []string
+	// a nested struct (behind scalar fields) that itself embeds a struct: its translated type
+	// differs from its own type
+	Deep struct {
+		C20DeepBase
+		Z int8
+	}
 }
+
+type C20DeepBase struct{ Q int8 }
 
 type c20cfgE struct {
 	Name string
@@ -24,7 +32,7 @@ type c20cfgE struct {
 
 // c20byname fills hoisted or nested leaves of whatever (translated) type it is handed, by name.
 type c20byname struct {
-	level, k, last bool
+	level, k, last, q bool
 	lv             int8
 	t              *dials.Type
 	wa             dials.WatchArgs
@@ -48,6 +56,11 @@ func (s *c20byname) make(t *dials.Type) reflect.Value {
 	if s.last {
 		set(out.FieldByName("Last"), uint8(9))
 	}
+	if s.q {
+		dp := out.FieldByName("Deep")
+		dp.Set(reflect.New(dp.Type().Elem()))
+		set(dp.Elem().FieldByName("Q"), int8(4))
+	}
 	return out
 }
 
@@ -65,12 +78,13 @@ func (s *c20byname) Watch(ctx context.Context, t *dials.Type, wa dials.WatchArgs
 // struct and a slice): the values arrive where the embedded struct's fields are, initially and on
 // update; what the source leaves unset stays at its default.
 func HarnessC20AnonFlatten() {
-	inner := &c20byname{level: zzverif.Bool("level"), k: zzverif.Bool("k"), last: zzverif.Bool("last"), lv: zzverif.Int8("lv")}
+	inner := &c20byname{level: zzverif.Bool("level"), k: zzverif.Bool("k"), last: zzverif.Bool("last"), lv: zzverif.Int8("lv"), q: zzverif.Bool("q")}
 	src := NewTransformingSource(inner, transform.AnonymousFlattenMangler{})
 	ctx, cancel := context.WithCancel(context.Background())
 	defer cancel()
 	def := c20cfgE{Name: "n", C20Emb: C20Emb{Level: 1, Tags: []string{"t"}}, Last: 2}
 	def.Inner.K = "dk"
+	def.Deep.Q, def.Deep.Z = 1, 2
 	d, err := dials.Config(ctx, &def, src)
 	zzverif.Assert(err == nil, "C20 Config failed through a transforming source with the anonymous-flatten mangler")
 	if err != nil {
@@ -89,6 +103,11 @@ func HarnessC20AnonFlatten() {
 			wantLast = 9
 		}
 		zzverif.Assert(got.Level == wantLevel && got.Inner.K == wantK && got.Last == wantLast, "C20 "+when+": a leaf reported through the anonymous-flatten wrapper did not arrive (or an unset one lost its default)")
+		wantQ := int8(1)
+		if inner.q {
+			wantQ = 4
+		}
+		zzverif.Assert(got.Deep.Q == wantQ && got.Deep.Z == 2, "C20 "+when+": a leaf of a struct embedded inside a nested struct of the embedded struct did not arrive through the anonymous-flatten wrapper (or an unset one lost its default)")
 		zzverif.Assert(len(got.Tags) == 1 && got.Name == "n", "C20 "+when+": a leaf the wrapped source left unset lost its default")
 	}
 	chk("initial value")
